@@ -312,7 +312,30 @@ def DefinedType.descTop : DefinedType → String
   | .result _ _ => "result" | .variant _ => "variant" | .record _ => "record" | .flags _ => "flags"
   | .enum _ => "enum" | .alias _ => "alias" | .stream _ => "stream" | .future _ => "future"
 
-/-- `SubtypeChecker::value_type` with `defined_type` inlined.  One fuel parameter bounds both the
+/-- the constructor dispatch of `SubtypeChecker::defined_type` (after the id shortcut);
+`rec_` is `value_type` on the component types -/
+def checkDefined (v : Variance) (rec_ : ValueType → ValueType → R) : DefinedType → DefinedType → R
+  | .tuple a, .tuple b => checkTuple v rec_ a b
+  | .list a, .list b => (rec_ a b).ctx "mismatched type for list element"
+  | .fixedSizeList a n, .fixedSizeList b m =>
+    if n != m then .err "mismatched size for fixed size list element"
+    else (rec_ a b).ctx "mismatched type for fixed size list element"
+  | .future a, .future b => (checkPayload rec_ a b).ctx "mismatched type for future payload"
+  | .stream a, .stream b => (checkPayload rec_ a b).ctx "mismatched type for stream payload"
+  | .option a, .option b => (rec_ a b).ctx "mismatched type for option"
+  | .result aok aerr, .result bok berr =>
+    match checkResultArm v rec_ "ok" aok bok with
+    | .ok => checkResultArm v rec_ "err" aerr berr
+    | r => r
+  | .variant a, .variant b => checkVariant v rec_ a b
+  | .record a, .record b => checkRecord v rec_ a b
+  | .flags a, .flags b => checkFlags v a b
+  | .enum a, .enum b => checkEnum v a b
+  | .alias _, _ => .panic "aliases should have been resolved"
+  | _, .alias _ => .panic "aliases should have been resolved"
+  | x, y => mismatch v x.descTop y.descTop
+
+/-- `SubtypeChecker::value_type` and `defined_type`.  One fuel parameter bounds both the
 `resolve_value_type` loop and the recursion through defined-type ids (one unit per dereference). -/
 def checkValueType (v : Variance) (at_ bt : Types) : Nat → ValueType → ValueType → R
   | 0, _, _ => .panic "fuel"
@@ -328,28 +351,7 @@ def checkValueType (v : Variance) (at_ bt : Types) : Nat → ValueType → Value
         if at_.uid == bt.uid && da == db then .ok
         else
           match at_.defined[da]?, bt.defined[db]? with
-          | some x, some y =>
-            let rec_ := checkValueType v at_ bt fuel
-            match x, y with
-            | .tuple a, .tuple b => checkTuple v rec_ a b
-            | .list a, .list b => (rec_ a b).ctx "mismatched type for list element"
-            | .fixedSizeList a n, .fixedSizeList b m =>
-              if n != m then .err "mismatched size for fixed size list element"
-              else (rec_ a b).ctx "mismatched type for fixed size list element"
-            | .future a, .future b => (checkPayload rec_ a b).ctx "mismatched type for future payload"
-            | .stream a, .stream b => (checkPayload rec_ a b).ctx "mismatched type for stream payload"
-            | .option a, .option b => (rec_ a b).ctx "mismatched type for option"
-            | .result aok aerr, .result bok berr =>
-              match checkResultArm v rec_ "ok" aok bok with
-              | .ok => checkResultArm v rec_ "err" aerr berr
-              | r => r
-            | .variant a, .variant b => checkVariant v rec_ a b
-            | .record a, .record b => checkRecord v rec_ a b
-            | .flags a, .flags b => checkFlags v a b
-            | .enum a, .enum b => checkEnum v a b
-            | .alias _, _ => .panic "aliases should have been resolved"
-            | _, .alias _ => .panic "aliases should have been resolved"
-            | x, y => mismatch v x.descTop y.descTop
+          | some x, some y => checkDefined v (checkValueType v at_ bt fuel) x y
           | _, _ => .panic "defined type index"
       | a, b => mismatch v (at_.descValue a) (bt.descValue b)
     | _, _ => .panic "resolve_value_type"
